@@ -282,6 +282,8 @@ class NetworkClient(KGLambda):
         From the KlongPy perspective, any outstanding remote calls will fail with the close_exception.
 
         """
+        if close_exception is None: # the listener was stopped without an error (cleanup() with calls outstanding)
+            close_exception = KlongIPCConnectionFailureException(f"connection closed: {str(self.conn_provider)}")
         for future in self.pending_responses.values():
             future.set_exception(close_exception)
         self.pending_responses.clear()
